@@ -12,6 +12,7 @@ import NflowsModel.Lemmas.TailsWhole
 import NflowsModel.Lemmas.QuadInverseWhole
 import NflowsModel.Lemmas.CubicInverseWhole
 import NflowsModel.Lemmas.LinWhole
+import NflowsModel.Lemmas.RQDefaultWitness
 /-!
 # C09 — spline transformers are increasing bijections of their box, identity in the tails
 
@@ -164,6 +165,16 @@ theorem rq_program_mapsTo (e : Float → ℝ) (c : RQCfg) (uw uh ud : List ℝ) 
 
 /-- non-vacuity: the hypotheses of the three theorems above are met by a concrete configuration -/
 example : RQWhole.RQValid RQWhole.eNV RQWhole.cNV [0] [0] [0, 0] := RQWhole.valid_example
+
+/-- … and by the LIBRARY-DEFAULT configuration (3 bins on `[-3, 3]²`, minima `1e-3`, non-zero parameters, every constant read as its
+    decimal value): the executed RQ program is there a strictly increasing map of `[-3, 3]` pinning `-3 ↦ -3`, `3 ↦ 3` -/
+theorem rq_program_default_configuration :
+    RQWhole.RQValid RQWhole.eH RQWhole.cH [0.3, -1.2, 2] [1, 0, -0.5] [0.1, 0.2, -3, 4] ∧
+    StrictMonoOn (RQWhole.val RQWhole.eH RQWhole.cH [0.3, -1.2, 2] [1, 0, -0.5] [0.1, 0.2, -3, 4])
+      (Set.Icc (RQWhole.eH RQWhole.cH.box.left) (RQWhole.eH RQWhole.cH.box.right)) ∧
+    RQWhole.val RQWhole.eH RQWhole.cH [0.3, -1.2, 2] [1, 0, -0.5] [0.1, 0.2, -3, 4] (RQWhole.eH RQWhole.cH.box.left)
+      = RQWhole.eH RQWhole.cH.box.bottom :=
+  ⟨RQWhole.valid_default, RQWhole.val_strictMonoOn RQWhole.valid_default, (RQWhole.val_endpoints RQWhole.valid_default).1⟩
 
 /-- `RQWhole.val` IS the program's first output wherever the program succeeds (it is not a re-statement of the spline) -/
 theorem rq_program_val_is_output (e : Float → ℝ) (c : RQCfg) (uw uh ud : List ℝ) (x : ℝ) (r : ℝ × ℝ)
